@@ -275,6 +275,24 @@ func paramSpec(loc, style string, explode bool, shape string) string {
 		schema = `{"type":"object","properties":{"a":{"type":"array","items":{"type":"string"}}}}`
 	case "objobj":
 		schema = `{"type":"object","properties":{"a":{"type":"object","properties":{"b":{"type":"string"}}}}}`
+	// shapes spelled through composition or additionalProperties: the parser's style table looks at
+	// schema.type, the generator at the built type — a shape must not slip between the two
+	case "allofobj":
+		schema = `{"allOf":[{"type":"object","properties":{"a":{"type":"string"}}},{"type":"object","properties":{"b":{"type":"string"}}}]}`
+	case "allofarr":
+		schema = `{"allOf":[{"type":"array","items":{"type":"string"}},{"type":"array","maxItems":5}]}`
+	case "allofobjarr":
+		schema = `{"allOf":[{"type":"object","properties":{"a":{"type":"array","items":{"type":"string"}}}},{"type":"object","properties":{"b":{"type":"string"}}}]}`
+	case "oneofobj":
+		schema = `{"oneOf":[{"type":"object","required":["a"],"properties":{"a":{"type":"string"}}},{"type":"object","required":["b"],"properties":{"b":{"type":"string"}}}]}`
+	case "mapstr":
+		schema = `{"type":"object","additionalProperties":{"type":"string"}}`
+	case "mapofarr":
+		schema = `{"type":"object","additionalProperties":{"type":"array","items":{"type":"string"}}}`
+	case "mapofobj":
+		schema = `{"type":"object","additionalProperties":{"type":"object","properties":{"a":{"type":"string"}}}}`
+	case "objmap":
+		schema = `{"type":"object","properties":{"a":{"type":"string"}},"additionalProperties":{"type":"array","items":{"type":"string"}}}`
 	}
 	path := "/x"
 	req := "false"
